@@ -763,7 +763,10 @@ impl World {
 		let h = match self.cfg.entry {
 			Entry::Default => unreachable!(),
 			Entry::Tower => {
-				let svc = self.svc_builder.clone().build(self.methods.clone(), stop_handle.clone());
+				// (a hand-assembled server may configure the clone it makes for each connection: the limits stay those of
+				// the server)
+				let builder = if rt::chance("per_connection_http_middleware", 1, 2) { self.svc_builder.clone().set_http_middleware(tower::ServiceBuilder::new()) } else { self.svc_builder.clone() };
+				let svc = builder.build(self.methods.clone(), stop_handle.clone());
 				rt::spawn("conn", async move {
 					let _ = jsonrpsee_server::serve_with_graceful_shutdown(b, svc, stop_handle.shutdown()).await;
 					rt::event("conn-task-finished", "");
